@@ -391,7 +391,8 @@ func runReplay(root, repo, id string, pc *PropConfig, q *ObResult, reason, path 
 	if fam != "" {
 		script := filepath.Join(root, "replay", "families", fam)
 		cmd := exec.Command(script, repo, stableName(q.Name), strconv.Itoa(seed))
-		cmd.Env = append(os.Environ(), "VERIF_ROOT="+root)
+		mj, _ := json.Marshal(q.Model)
+		cmd.Env = append(os.Environ(), "VERIF_ROOT="+root, "VERIF_MODEL="+string(mj))
 		b, err := cmd.CombinedOutput()
 		s := string(b)
 		if len(s) > 8000 {
